@@ -151,12 +151,56 @@ def build_harness(tags="verif", out="harness", extra=""):
     return os.path.join(BUILD, out)
 
 
+DIED = []   # VIOLATION lines for inputs on which the harness process died
+
+
+def cur_case_path(prop, suffix=""):
+    return os.path.join(BUILD, "%s%s.curcase" % (prop, suffix))
+
+
+def harness_died(prop, rc, out, cases, suffix="", note=""):
+    """The harness process ended abnormally (Go fatal error, out of memory, killed): the case it was
+    executing is reported as a violation with that case as the replay (on the unchanged tree the
+    run completes); the cases completed before it are still compared.  Without a known current
+    case the check is BROKEN."""
+    cur = cur_case_path(prop, suffix)
+    case = None
+    if os.path.exists(cur):
+        raw = open(cur, errors="replace").read()
+        try:
+            n = int(raw[:8]); case = raw[9:9 + n]
+        except ValueError:
+            case = None
+    if not case:
+        sys.stdout.write(out[-4000:])
+        raise SystemExit("BROKEN: harness run failed (exit %d)" % rc)
+    os.makedirs(os.path.join(VERIF, "evidence", "replays"), exist_ok=True)
+    rp = os.path.join(VERIF, "evidence", "replays", "%s-harness-died%s.replay" % (prop, suffix))
+    with open(rp, "w") as f:
+        f.write("# replay for property %s: the process executing the cases ended abnormally (exit %d%s) while running the case below;\n" % (prop, rc, note))
+        f.write("# on the unchanged tree the run completes.  Last output of the process:\n")
+        for l in out[-1500:].splitlines()[-12:]:
+            f.write("#   %s\n" % l)
+        f.write("# re-run: ./check %s --replay %s\n" % (prop, os.path.relpath(rp, VERIF)))
+        f.write(case + "\n")
+    DIED.append("VIOLATION property=%s replay=%s" % (prop, os.path.relpath(rp, VERIF)))
+    # keep the complete lines written so far
+    if os.path.exists(cases):
+        lines = open(cases, errors="replace").read().split("\n")
+        good = [l for l in lines[:-1] if " => " in l]
+        open(cases, "w").write("\n".join(good) + ("\n" if good else ""))
+    else:
+        open(cases, "w").write("")
+
+
 def run_harness(prop, tier, seed, binary="harness", suffix=""):
     cases = os.path.join(BUILD, "%s%s.cases" % (prop, suffix))
-    rc, out = sh([os.path.join(BUILD, binary), "gen", prop, tier, str(seed), cases], env=GOENV, timeout=3000, check=False)
+    cur = cur_case_path(prop, suffix)
+    if os.path.exists(cur):
+        os.remove(cur)
+    rc, out = sh([os.path.join(BUILD, binary), "gen", prop, tier, str(seed), cases], env=dict(GOENV, VERIF_CUR_CASE=cur), timeout=3000, check=False)
     if rc != 0:
-        sys.stdout.write(out[-4000:])
-        raise SystemExit("BROKEN: harness run failed")
+        harness_died(prop, rc, out, cases, suffix)
     return cases
 
 
